@@ -141,6 +141,25 @@ pub fn constructs(thorough: bool) -> Vec<Construct> {
     v.push(stmt_c("loop-break", 1, |o| format!("loop {{ if true {{ break }}; {} }}; return 1;", o[0])));
     v.push(stmt_c("closure-capture", 1, |o| format!("g := () -> any {{ return {} }}; return g;", o[0])));
     v.push(stmt_c("set-use", 1, |o| format!("y := {}; z := y; return z;", o[0])));
+    // closures bound through every binding form, then called
+    v.push(stmt_c("paren-closure-call", 1, |o| format!("h := ((q: any) -> any {{ return {} }}); return h(1);", o[0])));
+    v.push(stmt_c("destruct-closure", 1, |o| format!("(h, k) := ((q: any) -> any {{ return {} }}, 1); return h(k);", o[0])));
+    v.push(stmt_c("closure-in-struct", 1, |o| format!("s := struct{{ h := (q: any) -> any {{ return {} }} }}; return s.h(1);", o[0])));
+    v.push(stmt_c("closure-in-array", 1, |o| format!("arr := [(q: any) -> any {{ return {} }}]; return arr[0](1);", o[0])));
+    v.push(stmt_c("closure-in-tuple", 1, |o| format!("t := ((q: any) -> any {{ return {} }}, 1); return t.0(t.1);", o[0])));
+    v.push(stmt_c("closure-typed-result", 1, |o| format!("h := ((q: int) -> int {{ return q }}); r := h(1); return ({}, r);", o[0])));
+    // binders that shadow an operand: outside the bound body the outer operand is meant
+    for t in palette::position_types() {
+        let ts = t.print();
+        let ts2 = ts.clone();
+        v.push(stmt_c(&format!("ifset-shadow:{ts}"), 2, move |o| {
+            format!("if a: {ts2} = {} {{ return a }} else {{ return {} }}", o[1], o[0])
+        }));
+        let ts2 = ts.clone();
+        v.push(stmt_c(&format!("match-shadow:{ts}"), 2, move |o| {
+            format!("return match {} {{ a: {ts2} => a, => {}, }};", o[1], o[0])
+        }));
+    }
     v
 }
 
@@ -255,7 +274,7 @@ fn judge(v: &Variable, s: &Type) -> Option<&'static str> {
 /// the construct that happened to pull it.
 pub fn c01_sig(reason: &str, origin: &str, node: &str, static_type: &str, value: &str) -> String {
     let st = static_type.replace('|', "/");
-    if reason != "value-from-never-typed" && value.starts_with("(false, ") && static_type.starts_with("(bool, ") {
+    if reason != "value-from-never-typed" && value == "(false, ())" && static_type.starts_with("(bool, ") {
         return format!("C01|exhausted-iterator-default|value={}|declared={st}", value.replace('|', "/"));
     }
     format!("C01|{reason}|{origin}|node={node}|static={st}")
